@@ -59,9 +59,16 @@ partial def parseBoth (j : Json) : JE (GraphDef FlatMap × GraphDef SV) := do
     let condV : FlatMap → Except Err (List Key) := fun v =>
       match failId with
       | some id => .error { cls := .branchUser id }
-      | none => .ok (GraphCase.pick table v)
-    -- stream mode: branch.collect = collectByInvoke: concat, then the condition
-    let condS : SV → Except Err (List Key) := fun s => concat co s >>= condV
+      | none => .ok (if J.boolD b "stream" false then GraphCase.pickKeys table v else GraphCase.pick table v)
+    -- stream mode: a plain condition is wrapped by collectByInvoke (concat, then the
+    -- condition); a stream condition reads the first chunk only and closes its copy
+    let condS : SV → Except Err (List Key) := fun s =>
+      if J.boolD b "stream" false then
+        match failId, s with
+        | some id, _ => .error { cls := .branchUser id }
+        | none, [] => .error { cls := .branchUser 9998 }
+        | none, c :: _ => .ok (GraphCase.pickKeys table c)
+      else concat co s >>= condV
     pure ((from_, ({ ends := ends, cond := condV } : Branch FlatMap)), (from_, ({ ends := ends, cond := condS } : Branch SV))))
   let mk {V} (nodes : List (Key × (V → Except Err V))) (branches : List (Key × Branch V)) : GraphDef V :=
     { dag := mode == "dag", eager := false, maxSteps := J.natD j "maxSteps" 0, nodes := nodes, edges := edges, branches := branches }
